@@ -79,7 +79,7 @@ CLAIMED = {
     "C01": ("ingest", "fault_enumeration",
             "deterministic simulation with fault injection: seeded schedules x store faults x disk faults x node crashes/restarts (incarnation fencing), plus a systematic sweep failing/crashing at every object-store request of generated workloads; row-id conservation oracle",
             "Real Ingester + WAL (EveryWrite) + object-store catalog; 2..4 writers, timer; per-run fault profile (store fail-before/after/delay; disk ENOSPC/EIO/short/torn; crashes at quiescent points or inside file operations; up to 6 restarts incl. crash during recovery); ended by graceful shutdown or crash+restart+shutdown with faults off. Every row whose write() returned Ok while the node was alive must be in a catalogued chunk afterwards; stored rows must equal what was submitted; duplicates allowed. Sweep: every request index x {crash before, crash after, fail before, fail after}. Added during the build: the file stand-in mirrors tokio::fs::File's deferred reporting of write errors; disk-full after a partial write; power-loss mode (unsynced bytes dropped, pages of a failed fsync dropped even if a later fsync succeeds, a file created since the last fsync of its directory does not exist); store outages (a run of consecutive failed requests).",
-            "EveryWrite sync mode; process-crash disk semantics; acknowledgement = write() returned Ok on a live incarnation; in-flight requests are drained before a graceful shutdown.",
+            "EveryWrite sync mode; process-crash disk semantics in two thirds of the runs, power-loss semantics in one third; acknowledgement = write() returned Ok on a live incarnation; in-flight requests are drained before a graceful shutdown.",
             "DESIGN.md section 3 C01"),
     "C13": ("meta-cas", "exploration",
             "deterministic simulation: seeded request-level interleaving of real catalog clients on shard objects + store fault injection; version-history check of the generation chain",
